@@ -1,3 +1,4 @@
+import fcntl
 import locale
 import logging
 import os
@@ -114,6 +115,7 @@ class Input(ContextManager["Input"]):
 
     def __enter__(self) -> "Input":
         self.original_stty = termios.tcgetattr(self.in_stream)
+        self.original_fl = fcntl.fcntl(self.in_stream.fileno(), fcntl.F_GETFL)
         tty.setcbreak(self.in_stream, termios.TCSANOW)
 
         if self.disable_terminal_start_stop:
@@ -164,6 +166,9 @@ class Input(ContextManager["Input"]):
             if self.wakeup_write_fd is not None:
                 os.close(self.wakeup_write_fd)
         termios.tcsetattr(self.in_stream, termios.TCSANOW, self.original_stty)
+        # an interrupt between Nonblocking's F_SETFL and its with-body (or on entry of its
+        # __exit__) leaves O_NONBLOCK set: put back the flags found on entry
+        fcntl.fcntl(self.in_stream.fileno(), fcntl.F_SETFL, self.original_fl)
 
     def sigint_handler(
         self, signum: Union[signal.Signals, int], frame: Optional[FrameType]
